@@ -15,8 +15,9 @@ type Config struct {
 	DupP              float64  `json:"dup_p"`
 	SpikeP            float64  `json:"spike_p"`
 	CtxCancelOnReturn bool     `json:"ctx_cancel_on_return"`
-	TruncateDiff      uint64   `json:"truncate_diff"` // 0 = source value
-	TruncateAt        uint64   `json:"truncate_at"`   // accountant.Config.Truncate
+	TruncateDiff      uint64   `json:"truncate_diff"`        // 0 = source value
+	TruncateAt        uint64   `json:"truncate_at"`          // accountant.Config.Truncate
+	SignalBuf         uint64   `json:"signal_buf,omitempty"` // knob initialThroughput (truncate-signal channel capacity, initial throughput); 0 = source value
 	MaxArraySize      uint64   `json:"max_array_size"`
 	MaxRepeats        uint64   `json:"max_repeats"`
 	DataSize          int      `json:"data_size"`
